@@ -16,7 +16,7 @@ CONSTANTS
   Dt0, Dur0, Incl0,   \* ticks per step, duration in ticks, inclusive
   Vals,     \* value alphabet (in halves)
   PDty,     \* payload data types offered
-  OpKinds,  \* families of operations offered: "basic","range","trange","life","time","resize","recon"
+  OpKinds,  \* families of operations offered: "basic","push","range","trange","life","time","resize","recon"
   KMul,     \* offsets range over 0..KMul*n
   Tols,     \* tolerances (in ticks; the model uses tol + 1/2)
   Offs,     \* offsets offered to select / insert
@@ -85,8 +85,11 @@ Ops(s) ==
         {[a |-> "set_dt", x |-> x] : x \in DtSet}
         \cup {[a |-> "set_duration", x |-> x] : x \in DurSet}
         \cup {[a |-> "set_inclusive", x |-> x] : x \in BOOLEAN}
-      recon == {[a |-> "recon", size |-> z] : z \in ESizes \cup {-1}}
+      recon == {[a |-> "recon", size |-> z] : z \in ESizes \cup {-1}} \cup {[a |-> "valid"]}
+      pushes == UNION {{[a |-> "push", v |-> v, d |-> d, inpl |-> ip] : v \in ObsOf(d, E), ip \in BOOLEAN} : d \in PDty}
+                \cup {[a |-> "incr", p |-> 1]}
   IN (IF "basic" \in OpKinds THEN basic ELSE {})
+     \cup (IF "push" \in OpKinds THEN pushes ELSE {})
      \cup (IF "range" \in OpKinds THEN range ELSE {})
      \cup (IF "trange" \in OpKinds THEN trange ELSE {})
      \cup (IF "life" \in OpKinds THEN life ELSE {})
@@ -112,7 +115,6 @@ TypeOK ==
                   /\ st.dty \in DTypes
                   /\ \A i \in 1..st.n : Len(st.store[i]) = Len(st.store[1])
                   /\ AllPreserved(st.dty, st.store)              \* stored values are of the record's type
-                  /\ st.econ # -1 => ElemsOf(st) = st.econ       \* C13: valid => constraint satisfied
   /\ ~Ready(st) => st.ptr = 0
 
 \* C01 / C02 / C13: every operation in every reachable state refines the list model
